@@ -229,8 +229,8 @@ pub fn plan_for(id: &str) -> Option<Plan> {
         "C17" => Some({ let mut p = Plan {
             property: "C17",
             level: "fault_enumeration",
-            rule: "complete product {constant-product pair, stableswap pair, 3-pool, vault} x all 2^3 toggle combinations x {empty, funded} = 64 cases (run index mod 64), each executing every entry path of every operation (pair: direct provide, frontend helper, withdraw hook, native swap, cw20 swap hook, router native, router cw20; 3-pool: provide, withdraw hook, native swap, cw20 swap hook; vault: deposit, withdraw hook, flash loan direct, flash loan via vault router) under the toggles and again after re-enabling, with a run-specific amount; distinct = (case, path, amount, phase) of successful enabled operations",
-            parts: vec![PlanPart { scen: scen::<scen::toggle::Toggle>(), quick_runs: 64 * 6, thorough_runs: 64 * 400 }],
+            rule: "complete product {constant-product pair, stableswap pair, 3-pool, vault} x all 2^3 toggle combinations x {empty, funded} x 4 asset-kind assignments ((native,cw20,native), all native, all cw20, (cw20,native,cw20); the vault holds the first asset) = 256 cases (run index mod 256), each executing every entry path of every operation that exists for those kinds (pair: direct provide, provide for a receiver, frontend helper (also while it holds stray LP), withdraw hook, native swap, cw20 swap hook, swap to a receiver, router native, router cw20, hostile direct WithdrawLiquidity {} with a coin; 3-pool: provide, provide for a receiver, withdraw hook, native swap, cw20 swap hook, swap to a receiver, hostile direct withdrawal; vault: deposit, withdraw hook, flash loan direct, flash loan via vault router, withdrawal inside a loan callback, hostile direct Withdraw {} with a coin) under the toggles and again after re-enabling, with a run-specific amount; distinct = (case, path, amount, phase) of successful enabled operations",
+            parts: vec![PlanPart { scen: scen::<scen::toggle::Toggle>(), quick_runs: 256 * 3, thorough_runs: 256 * 120 }],
             real: vec!["terraswap_pair, stableswap_3pool, terraswap_factory, terraswap_router, frontend_helper, incentive_factory, incentive, vault, vault_factory, vault_router, terraswap_token (all real, from /repo)", "fee-distributor-mock from /repo (epoch source for the incentive)", "borrower harness contract"],
             stubbed: STUBS.to_vec(),
             assumptions: vec!["fee-collector aggregation as a swap entry path is exercised by the HUB scenario, not here"],
